@@ -211,26 +211,29 @@ impl CommandParser {
                     .segments
                     .iter()
                     .map(|segment| {
-                        if segment.arguments.is_empty() {
-                            segment.ident.to_string()
-                        } else {
-                            match &segment.arguments {
-                                syn::PathArguments::AngleBracketed(args) => {
-                                    let inner_types: Vec<String> = args
-                                        .args
-                                        .iter()
-                                        .filter_map(|arg| {
-                                            if let syn::GenericArgument::Type(inner_ty) = arg {
-                                                Some(Self::type_to_string(inner_ty))
-                                            } else {
-                                                None
-                                            }
-                                        })
-                                        .collect();
-                                    format!("{}<{}>", segment.ident, inner_types.join(", "))
+                        // `r#Kind` names the type `Kind`
+                        let ident = segment.ident.unraw().to_string();
+                        match &segment.arguments {
+                            syn::PathArguments::AngleBracketed(args) => {
+                                let inner_types: Vec<String> = args
+                                    .args
+                                    .iter()
+                                    .filter_map(|arg| {
+                                        if let syn::GenericArgument::Type(inner_ty) = arg {
+                                            Some(Self::type_to_string(inner_ty))
+                                        } else {
+                                            None
+                                        }
+                                    })
+                                    .collect();
+                                if inner_types.is_empty() {
+                                    // only lifetimes or constants: Wrapper<'a> is Wrapper
+                                    ident
+                                } else {
+                                    format!("{}<{}>", ident, inner_types.join(", "))
                                 }
-                                _ => segment.ident.to_string(),
                             }
+                            _ => ident,
                         }
                     })
                     .collect();
